@@ -6,7 +6,8 @@ Model of `cascade.executor.runner.runner.run` (after the `fix:` commits of C10),
 * output publication: one output -> the result itself; several outputs -> `zip(outputs, result, strict=True)`
   over the outputs in DECLARATION order, followed by the two exhaustion checks;
 * `Memory.handle` (store locally, publish if asked; publishing needs a picklable value) and `Memory.provide`;
-* `is_last_output_of`: the output whose publication the controller takes as completion of the task;
+* `is_last_output_of` (still in notify.py, no longer called) and `all_outputs_published` (the rule `notify` uses): when
+  the controller takes a task as complete;
 * the stateful `Memory` (`local`, `bufs`, the host's shared memory; `provide`, `handle`, `flush`, `pop`) and
   `entrypoint.execute_sequence` over a `TaskSequence` of several tasks (`Mem`, `runM`, `execSeq`): a consumer later in
   the sequence reads what a producer earlier in the sequence stored in `local`, published or not.
@@ -184,6 +185,20 @@ def isLastOutputOf (outs : List String) (o : String) : Option Bool :=
   match outs.getLast? with
   | none => none
   | some l => some (l = o)
+
+/-- `notify.all_outputs_published(state, ds, job)` for one task -- the rule by which `notify` decides that a task is
+complete (it replaced `is_last_output_of`, which is still in the source but no longer called by `notify`). `seen` =
+`state.published_outputs[task]` (a set, kept as a list without duplicates), `n` = `len(output_schema)`: the output is
+added to the set; the answer is whether the set now has as many elements as the schema has keys. -/
+def allOutputsPublished (n : Nat) (seen : List String) (o : String) : List String × Bool :=
+  ((if seen.contains o then seen else o :: seen),
+   (if seen.contains o then seen else o :: seen).length == n)
+
+/-- the answers of `all_outputs_published` to the notices `ns` of one task, delivered in this order, starting from the
+set `seen` -/
+def completionFlags (n : Nat) : List String → List String → List Bool
+  | _, [] => []
+  | seen, o :: rest => (allOutputsPublished n seen o).2 :: completionFlags n (allOutputsPublished n seen o).1 rest
 
 /-! ### the stateful `Memory` and `execute_sequence` -/
 
